@@ -11,7 +11,7 @@ Directive summary (lines starting with //@):
   //@float_axioms                     splice the f64 totality axiom group
   //@verus_arg ARG                    extra command-line argument for verus on this unit (listed in evidence)
   //@extract FILE :: SEG [:: SEG]     copy an item from /repo (SEG = 'impl T' | 'fn f' | 'struct S' ...)
-      //@ret NAME                     R10: name the return value  `-> T` => `-> (NAME: T)`
+      //@ret NAME [as T]              R10: name the return value  `-> T` => `-> (NAME: T)`; `as T` names an associated type at the verified instance (R17)
       //@spec                         following lines go between signature and body
       //@loop K                       following lines go before the body brace of the K-th loop
       //@loophead K KIND => "HDR" body "STMTS"   (next line: the expected current header) declared rewrite of a loop header
@@ -25,7 +25,8 @@ Directive summary (lines starting with //@):
       //@rw wildcard_closure          R9: `|_|` => `|_e|`
       //@rw name_iters                R13 as a rule: `for PAT in A..B` => `for PAT in iter: A..B` (ghost iterator name only)
       //@rw deref_buffer A,B          R15 as a rule: A[..] => A.buffer[..], A.len() => A.buffer.len() for the listed variables
-      //@rw float_neg                 R16: unary `-(E)` on floats => `f64_neg(E)` (contracted wrapper)
+      //@rw float_neg                 R16: unary `-(E)` / `-place` on floats => `f64_neg(..)` (contracted wrapper)
+      //@rw rev_loops                 R7: `for X in (A..B).rev()` => descending while loop over X_next
       //@rw float_opassign A,B        R4 as a rule: `LHS op= RHS;` => `LHS = LHS op (RHS);` when LHS starts with a listed name
       //@subst KIND "A" => "B" [count N]   declared literal rewrite (KIND in R4,R5,R6,R7,R11)
       //@hole NAME from "TEXT" [occ N] [until "{"] => "REPLACEMENT"   R8: expression from after TEXT up to the
@@ -55,6 +56,7 @@ SUBST_KINDS = {
     'R12': 'pattern destructuring in closure/let position => field access',
     'R15': 'Deref of a deref_buffer! newtype made explicit: x[i] => x.buffer[i], x.len() => x.buffer.len(), and float compound assignment on it expanded (X op= E => X = X op E)',
     'R16': 'unary minus on a parenthesised float expression routed through the contracted wrapper f64_neg: -(E) => f64_neg(E)',
+    'R17': 'trait default method verified at one implementing type: the associated type / accessor is named at that instance (Self::Coef => Coefficients, self.alpha() => self.alpha)',
     'R14': 'explicit type ascription on a let (the type rustc infers; needed because spliced spec text mentions the variable before inference completes)',
     'R13': 'contract splice on a nested fn or closure header (adds specification text and a name for the return value; executable text unchanged)',
 }
@@ -374,6 +376,9 @@ class Extractor:
                 continue
             if head.startswith('ret '):
                 name = head[4:].strip()
+                rtype_as = None
+                if ' as ' in name:      # `//@ret r as T`: R17, the associated return type named at the verified instance
+                    name, rtype_as = [x.strip() for x in name.split(' as ', 1)]
                 am = None
                 i = fm.end()
                 while item[i].isspace():
@@ -406,6 +411,9 @@ class Extractor:
                 if wh:
                     te = ts + wh.start()
                 rtype = item[ts:te].strip()
+                if rtype_as is not None:
+                    self.substs.append({'fn': qual, 'kind': 'R17', 'from': rtype, 'to': rtype_as, 'count': 1})
+                    rtype = rtype_as
                 edits.append(Edit(ts, te, ' (%s: %s) ' % (name, rtype), 'R10'))
             elif head == 'spec':
                 spec_lines = d['lines']
@@ -509,18 +517,56 @@ class Extractor:
                                     t = re.sub(r'(?<![\w])(?<![^.]\.)' + re.escape(nm) + r'(?=\[)', nm + '.buffer', t)
                                     t = re.sub(r'(?<![\w])(?<![^.]\.)' + re.escape(nm) + r'(?=\.len\(\))', nm + '.buffer', t)
                         return t
-                    rep = '%s%s = %s %s (%s);' % (mm.group(1), fix(lhs), fix(lhs), op, fix(rhs))
-                    edits.append(Edit(mm.start(), mm.end(), rep, 'R4'))
+                    # two point edits (the `op=` token and the closing parenthesis) so that other rules may
+                    # still rewrite inside the left- and right-hand sides
+                    opos = mm.start(3)
+                    edits.append(Edit(opos, opos + 2, '= %s %s (' % (fix(lhs), op), 'R4'))
+                    edits.append(Edit(mm.end() - 1, mm.end() - 1, ')', 'R4'))
                 self.substs.append({'fn': qual, 'kind': 'R4', 'from': 'LHS op= RHS; with LHS starting with one of %s' % names, 'to': 'LHS = LHS op (RHS);', 'count': -1})
             elif head == 'rw float_neg':
-                # R16 as a rule: unary minus applied to a parenthesised (float) expression, which Verus does not
-                # accept, goes through the contracted wrapper f64_neg (float_axioms.inc): `-(E)` => `f64_neg(E)`
+                # R16 as a rule: unary minus applied to a parenthesised expression or to a place expression
+                # (ident, fields, indexing, calls), which Verus does not accept on floats, goes through the
+                # contracted wrapper f64_neg (float_axioms.inc): `-(E)` => `f64_neg(E)`, `-a[i]` => `f64_neg(a[i])`
                 cnt = 0
-                for mm in find_code(item, mask, r'(?<=[=(,{;:])\s*-\(', body_open, body_close):
+                for mm in find_code(item, mask, r'(?<=[=(,{;:])\s*-(?=[A-Za-z_(])', body_open, body_close):
                     minus = item.index('-', mm.start())
-                    edits.append(Edit(minus, minus + 1, 'f64_neg', 'R16'))
+                    pos = minus + 1
+                    if item[pos] == '(':
+                        end_ = match_brace(item, mask, pos) + 1
+                        edits.append(Edit(minus, minus + 1, 'f64_neg', 'R16'))
+                    else:
+                        m2_ = re.match(r'[A-Za-z_]\w*', item[pos:])
+                        end_ = pos + m2_.end()
+                        while end_ < body_close:
+                            if item[end_] in '([':
+                                end_ = match_brace(item, mask, end_) + 1
+                            elif item[end_] == '.' and re.match(r'\.[A-Za-z_0-9]', item[end_:end_ + 2]):
+                                m3_ = re.match(r'\.\w+', item[end_:])
+                                end_ += m3_.end()
+                            else:
+                                break
+                        edits.append(Edit(minus, minus + 1, 'f64_neg(', 'R16'))
+                        edits.append(Edit(end_, end_, ')', 'R16'))
                     cnt += 1
-                self.substs.append({'fn': qual, 'kind': 'R16', 'from': '-(E)', 'to': 'f64_neg(E)', 'count': cnt})
+                self.substs.append({'fn': qual, 'kind': 'R16', 'from': '-(E) / -place', 'to': 'f64_neg(E)', 'count': cnt})
+            elif head == 'rw rev_loops':
+                # R7 as a rule: `for X in (A..B).rev() {` => `let mut X_next = B; while X_next > A { X_next -= 1; let X = X_next;`
+                cnt = 0
+                for lo_ in loop_offsets:
+                    if not item.startswith('for', lo_):
+                        continue
+                    ob_ = next_open_brace(item, mask, lo_ + 1, body_close)
+                    hdr = item[lo_:ob_]
+                    mm = re.match(r'for\s+(\w+)\s+in\s+\((.+?)\.\.(.+)\)\.rev\(\)\s*$', hdr, re.S)
+                    if not mm:
+                        continue
+                    x_, a_, b_ = mm.group(1), mm.group(2).strip(), mm.group(3).strip()
+                    edits.append(Edit(lo_, ob_, 'let mut %s_next = %s; while %s_next > %s ' % (x_, b_, x_, a_), 'R7'))
+                    e2 = Edit(ob_ + 1, ob_ + 1, [(' %s_next -= 1; let %s = %s_next;' % (x_, x_, x_), '<R7>', 0)], 'splice')
+                    e2.prio = -1
+                    edits.append(e2)
+                    cnt += 1
+                self.substs.append({'fn': qual, 'kind': 'R7', 'from': 'for X in (A..B).rev()', 'to': 'let mut X_next = B; while X_next > A { X_next -= 1; let X = X_next;', 'count': cnt})
             elif head == 'rw name_iters':
                 # R13 as a rule: every `for PAT in A..B` gets a named ghost iterator (`for PAT in iter: A..B`)
                 # so that spliced invariants can refer to iter.iter.end; the executable text is unchanged
@@ -561,6 +607,10 @@ class Extractor:
                 kind, rest = rest.split(' ', 1)
                 if kind not in SUBST_KINDS:
                     raise SpecError('%s:%d: unknown subst kind %s' % (wf, wno, kind))
+                in_sig = False
+                if rest.startswith('sig '):      # search the fn signature instead of the body
+                    in_sig = True
+                    rest = rest[4:]
                 a, rest = parse_quoted(rest)
                 rest = rest.strip()
                 if not rest.startswith('=>'):
@@ -571,6 +621,8 @@ class Extractor:
                 if m:
                     cnt = int(m.group(1))
                 lo_, hi_ = (body_open, body_close) if is_fn else (0, len(item))
+                if in_sig and is_fn:
+                    lo_, hi_ = fm.start(), body_open
                 occs = find_occurrences(item, mask, a, lo_, hi_)
                 if len(occs) != cnt:
                     raise LostAnchor('%s: subst %s %r expected %d occurrence(s), found %d' % (qual, kind, a, cnt, len(occs)))
